@@ -121,10 +121,14 @@ class Setup:
             # more components than axes: the extra ones point along no axis (None), the
             # usual form for a 3-component field on a 2-d mesh
             perm = rng.permutation(nv)
+            # ... or along an axis this mesh does not have (what a plane cut `f.sel('z')` of a
+            # 3-d vector field carries: {'x': 'x', 'y': 'y', 'z': 'z'} on an ('x', 'y') mesh)
+            gone = gen.pick(rng, [None, None, "out", "zz"])
             self.mapping = gen.shuffle_keys(
-                rng, {self.labels[int(perm[j])]: (self.names[j] if j < nd else None)
+                rng, {self.labels[int(perm[j])]: (self.names[j] if j < nd else
+                                                  (None if gone is None else f"{gone}{j}"))
                       for j in range(nv)})
-            self.map_kind = "partial_with_None"
+            self.map_kind = "partial_with_None" if gone is None else "partial_with_foreign_axis"
         self.real = real
         self.arr = gen.rand_values(rng, (*self.n, nv), "float" if real else "complex")
         if real and rng.random() < 0.2:
